@@ -79,7 +79,10 @@ func ParseSchema(source string) (*Schema, error) {
 
 				paramComments[pname] = strings.TrimSpace(pcomment)
 			default:
-				return nil, fmt.Errorf("unknown comment type: %s", ctype)
+				// not an annotation: a plain comment (the shipped schemas start with some), skip the line
+				if _, err := cur.ReadAt('\n'); err != nil {
+					return nil, fmt.Errorf("read comment: %w", err)
+				}
 			}
 
 			cur.Skip(1)
